@@ -153,6 +153,58 @@ def main():
                 break
             prev = w
     lr.stats["fault_points"] = nfail
+    # ---- B2: the failed operation is repeated. A retry that is acknowledged is an acknowledged operation: what it names is in storage
+    # afterwards, and a reload answers like the live location (an operation that found its result "already there" in memory
+    # after the failed attempt and skipped the write would be acknowledged and lost)
+    RETRY = ("addFact", "addRule", "setParents", "enableRule")
+    rcases, rinfo = [], []
+    for c, o in zip(fcases, fout):
+        outs = o.get("outs") or []
+        prev, kf_ = 0, None
+        for k, r in enumerate(outs):
+            w = r.get("writes", prev)
+            if prev < c["failAt"] <= w:
+                kf_ = k; break
+            prev = w
+        if kf_ is None or c["ops"][kf_]["op"] not in RETRY or outs[kf_].get("err") is None:
+            continue
+        opk = c["ops"][kf_]
+        if opk["op"] == "enableRule" and opk.get("enable"):
+            continue            # enabling = removing the flag: the removals are looked at by C08
+        if opk["op"] in ("addFact", "addRule") and not opk.get("id"):
+            continue            # a fresh id per attempt
+        rc_ = dict(copy.deepcopy(c))
+        rc_["ops"] = rc_["ops"][: kf_ + 1] + [copy.deepcopy(opk), {"op": "snapshot", "loc": opk.get("loc", "a")}, {"op": "reload", "loc": opk.get("loc", "a")},
+                                             {"op": "snapshot", "loc": opk.get("loc", "a")}]
+        rcases.append(rc_); rinfo.append(kf_)
+    if not ck.thorough and len(rcases) > 150:
+        pick = sorted(rng.sample(range(len(rcases)), 150))
+        rcases, rinfo = [rcases[i] for i in pick], [rinfo[i] for i in pick]
+    rout = run_cases(lr.drv, rcases)
+    for c, o, kf_ in zip(rcases, rout, rinfo):
+        ck.count({"retry": c["failAt"], "s": c["state"], "ops": c["ops"]})
+        outs = o.get("outs") or []
+        if len(outs) != len(c["ops"]):
+            continue
+        lr.stats["retry_cases"] += 1
+        retry, live, after = outs[kf_ + 1], (outs[kf_ + 2].get("ok") or {}), (outs[kf_ + 4].get("ok") or {})
+        if retry.get("err") is not None:
+            lr.stats["retry_refused"] += 1
+            continue
+        named = [i for i in named_ids(c["ops"][kf_]) if not i.startswith("*")]
+        cf = lambda d: {k: canon(canon_fact(v)) for k, v in (d or {}).items()}
+        lf, ls, af = cf(live.get("facts")), cf(live.get("store")), cf(after.get("facts"))
+        bad = [i for i in named if lf.get(i) != ls.get(i)]
+        if bad:
+            ck.violation("%s failed (storage write %d), was repeated and acknowledged, but what it names is not in storage: id %s memory=%s storage=%s (%s state)" % (
+                c["ops"][kf_]["op"], c["failAt"], bad[0], str(lf.get(bad[0]))[:160], str(ls.get(bad[0]))[:160], c["state"]),
+                {"case": {kk: (v if kk != "ops" else v[: kf_ + 3]) for kk, v in c.items()}, "snapshot": live}, tag="retry")
+            continue
+        bad = [i for i in named if lf.get(i) != af.get(i)]
+        if bad:
+            ck.violation("%s failed (storage write %d), was repeated and acknowledged, and is lost by a reload: id %s live=%s reloaded=%s (%s state)" % (
+                c["ops"][kf_]["op"], c["failAt"], bad[0], str(lf.get(bad[0]))[:160], str(af.get(bad[0]))[:160], c["state"]),
+                {"case": c, "live": live, "reloaded": after}, tag="retry-reload")
     # crash points: run the acknowledged prefix on the model; after the crash storage must hold exactly that, except for the ids the interrupted op names (and their dependents)
     cout = run_cases(lr.drv, ccases)
     mprefix = []
